@@ -69,6 +69,28 @@ fn main() {
             }
         }
     }
+    // started commands that have pipes of their own (their stderr piped individually) and fill them: every end the parent holds for a
+    // started command must be released before it is waited for, not only those of the first command
+    for k in 2..=3 {
+        for term in 0..2 {
+            checked += 1;
+            let what = format!("n={} k={} via {}: every started command has its own stderr pipe and writes 300000 bytes to it", k + 1, k, ["popen", "join"][term]);
+            *progress.lock().unwrap() = what.clone();
+            let mut cmds: Vec<Exec> = (0..k).map(|_| Exec::cmd("sh").arg("-c").arg("head -c 300000 /dev/zero >&2; exec cat").stderr(Redirection::Pipe)).collect();
+            cmds.push(Exec::cmd("/nonexistent/program"));
+            let p = Pipeline::from_exec_iter(cmds).stdin(subprocess::NullFile);
+            let t = Instant::now();
+            let failed = if term == 0 { p.popen().is_err() } else { p.join().is_err() };
+            let mut why = vec![];
+            if !failed { why.push("no error was returned".to_string()); }
+            if t.elapsed() > Duration::from_secs(5) { why.push(format!("returned only after {:?}", t.elapsed())); }
+            let mut left = 0; loop { let r = unsafe { libc::waitpid(-1, std::ptr::null_mut(), libc::WNOHANG) }; if r > 0 { left += 1; } else { if r == 0 { left += 1; } break; } }
+            if left != 0 { why.push("a child of the attempt is still there (running or zombie)".to_string()); }
+            if open_fds() != fds0 { why.push(format!("{} descriptors open instead of {}", open_fds(), fds0)); }
+            if !why.is_empty() { println!("FAIL: {}: {}", what, why.join("; ")); bad += 1; }
+        }
+    }
+    *progress.lock().unwrap() = String::new();
     println!("{} failing pipelines checked, {} mismatches", checked, bad);
     if bad > 0 { std::process::exit(1); }
     println!("ok");
